@@ -1,0 +1,96 @@
+//go:build verif
+
+package s2
+
+// Read-only views of unexported state for the verification harness (properties C13, C14).
+// Add-only; no behaviour of the package changes. None of these functions triggers an index
+// update or takes the index lock: callers use them from a single goroutine.
+
+import (
+	"sort"
+	"sync/atomic"
+
+	"github.com/golang/geo/s1"
+)
+
+// VerifC13Index is the deferred-update bookkeeping of a ShapeIndex as it is right now.
+type VerifC13Index struct {
+	Fresh        bool
+	NextID       int32
+	PendingPos   int32
+	NumShapes    int
+	NumRemovals  int
+	NumCells     int
+	CellShapeIDs []int32 // sorted distinct shape ids that occur in the cell map
+	CellsSorted  bool    // the cell id list is strictly increasing and matches the map
+}
+
+// VerifC13IndexState reads the bookkeeping without applying pending updates.
+func VerifC13IndexState(s *ShapeIndex) VerifC13Index {
+	st := VerifC13Index{
+		Fresh:       atomic.LoadInt32(&s.status) == fresh,
+		NextID:      s.nextID,
+		PendingPos:  s.pendingAdditionsPos,
+		NumShapes:   len(s.shapes),
+		NumRemovals: len(s.pendingRemovals),
+		NumCells:    len(s.cells),
+		CellsSorted: len(s.cells) == len(s.cellMap),
+	}
+	seen := map[int32]bool{}
+	for i, id := range s.cells {
+		if i > 0 && s.cells[i-1] >= id {
+			st.CellsSorted = false
+		}
+		cell := s.cellMap[id]
+		if cell == nil {
+			st.CellsSorted = false
+			continue
+		}
+		for _, cl := range cell.shapes {
+			seen[cl.shapeID] = true
+		}
+	}
+	for id := range seen {
+		st.CellShapeIDs = append(st.CellShapeIDs, id)
+	}
+	sort.Slice(st.CellShapeIDs, func(i, j int) bool { return st.CellShapeIDs[i] < st.CellShapeIDs[j] })
+	return st
+}
+
+// VerifC13LoopIndex returns the loop's own index.
+func VerifC13LoopIndex(l *Loop) *ShapeIndex { return l.index }
+
+// VerifC13PolygonIndex returns the polygon's own index.
+func VerifC13PolygonIndex(p *Polygon) *ShapeIndex { return p.index }
+
+// VerifC13Opts is a copy of a queryOptions struct.
+type VerifC13Opts struct {
+	MaxResults       int
+	DistanceLimit    s1.ChordAngle
+	MaxError         s1.ChordAngle
+	IncludeInteriors bool
+	UseBruteForce    bool
+}
+
+func verifC13Opts(q *queryOptions) VerifC13Opts {
+	return VerifC13Opts{q.maxResults, q.distanceLimit, q.maxError, q.includeInteriors, q.useBruteForce}
+}
+
+// VerifC13UserOpts copies the options object the caller holds.
+func VerifC13UserOpts(o *EdgeQueryOptions) VerifC13Opts { return verifC13Opts(o.common) }
+
+// VerifC13QueryOpts copies the options the query currently points at and reports whether
+// that is the caller's object.
+func VerifC13QueryOpts(e *EdgeQuery, o *EdgeQueryOptions) (VerifC13Opts, bool) {
+	return verifC13Opts(e.opts), e.opts == o.common
+}
+
+// VerifC13QueryCache returns the cached edge count, its limit and the cached covering.
+func VerifC13QueryCache(e *EdgeQuery) (numEdges, numEdgesLimit int, covering []CellID) {
+	return e.indexNumEdges, e.indexNumEdgesLimit, append([]CellID(nil), e.indexCovering...)
+}
+
+// VerifC13TargetMaxError returns the maxError of the inner query of an index target.
+func VerifC13TargetMaxError(t *MinDistanceToShapeIndexTarget) s1.ChordAngle {
+	return t.query.opts.maxError
+}
